@@ -115,6 +115,21 @@ func (e *Engine) writeTok(st *State, s *Term, t tokVal) {
 	w := wposOf(st, s)
 	e.tokStore(st, s, w, t)
 	st.storeLeaf("tokpos|w", []*Term{s}, Add(w, BVConst(1, 64)))
+	wb := st.loadLeaf("tokpos|wb", []*Term{s}, Ref64)
+	st.storeLeaf("tokpos|wb", []*Term{s}, Add(wb, tokByteLen(t)))
+}
+
+// tokByteLen is the number of bytes a token stands for.
+func tokByteLen(t tokVal) *Term {
+	hl := Ite(Ult(t.n, BVConst(24, 64)), BVConst(1, 64),
+		Ite(Ult(t.n, BVConst(1<<8, 64)), BVConst(2, 64),
+			Ite(Ult(t.n, BVConst(1<<16, 64)), BVConst(3, 64),
+				Ite(Ult(t.n, BVConst(1<<32, 64)), BVConst(5, 64), BVConst(9, 64)))))
+	abs := App("abstoklen", Ref64, t.aux, t.cid)
+	return Ite(Eq(t.kind, BVConst(tkHead, 8)), hl,
+		Ite(Eq(t.kind, BVConst(tkRaw, 8)), BVConst(1, 64),
+			Ite(Eq(t.kind, BVConst(tkBlk, 8)), t.n,
+				Ite(Eq(t.kind, BVConst(tkFix, 8)), ZExt(BAnd(t.m, BVConst(0x7f, 8)), 64), abs))))
 }
 
 // readTok consumes the next token of stream s (copying it to the sink of a TeeReader).
@@ -128,6 +143,8 @@ func (e *Engine) readTok(st *State, s *Term) tokVal {
 	r := rposOf(st, s)
 	t := e.tokLoad(st, s, r)
 	st.storeLeaf("tokpos|r", []*Term{s}, Add(r, BVConst(1, 64)))
+	rb := st.loadLeaf("tokpos|rb", []*Term{s}, Ref64)
+	st.storeLeaf("tokpos|rb", []*Term{s}, Add(rb, tokByteLen(t)))
 	return t
 }
 
@@ -297,6 +314,9 @@ func streamModels(name string) modelFn {
 		}
 	case "io.ReadFull", "io.ReadAtLeast":
 		return func(e *Engine, st *State, fr *Frame, fn *ssa.Function, args []Val, in ssa.Instruction) (Val, bool) {
+			if e.byteMode() && name == "io.ReadFull" {
+				return e.byteReadFull(st, fr, fn, args, in)
+			}
 			RT := fn.Signature.Results()
 			buf := args[1]
 			e.ioFail(st, fr, in, bindOf(in), func(o *State, err Val) Val {
@@ -390,7 +410,18 @@ func streamModels(name string) modelFn {
 			st.storeLeaf("tokpos|r", []*Term{ref}, BVConst(0, 64))
 			return Val{fn.Signature.Results().At(0).Type(), []*Term{ref}}, true
 		}
-	case "(*bytes.Buffer).Write", "(*bufio.Writer).Write":
+	case "(*bytes.Buffer).Write":
+		// documented: "The return value n is the length of p; err is always nil."
+		return func(e *Engine, st *State, fr *Frame, fn *ssa.Function, args []Val, in ssa.Instruction) (Val, bool) {
+			_, had := st.ghost["$noioerr"]
+			st.ghost["$noioerr"] = boolVal(True)
+			r, ok := modelWrite(e, st, fr, fn, args, in)
+			if !had {
+				delete(st.ghost, "$noioerr")
+			}
+			return r, ok
+		}
+	case "(*bufio.Writer).Write":
 		return modelWrite
 	case "(*bytes.Buffer).Read", "(*bufio.Reader).Read", "(*bytes.Reader).Read":
 		return modelRead
@@ -402,11 +433,7 @@ func streamModels(name string) modelFn {
 	case "(*bytes.Buffer).Len":
 		return func(e *Engine, st *State, fr *Frame, fn *ssa.Function, args []Val, in ssa.Instruction) (Val, bool) {
 			s := e.resolveAlias(st, streamRef(args[0]))
-			// byte length of the unread part: an uninterpreted function of the token range
-			n := App("tokbytes", Ref64, s, rposOf(st, s), wposOf(st, s), st.cellArr("tok|n", 2, Ref64), st.cellArr("tok|kind", 2, BV(8)))
-			st.assume(Ule(n, BVConst(maxLen, 64)))
-			st.assume(Eq(Eq(n, BVConst(0, 64)), Eq(rposOf(st, s), wposOf(st, s))))
-			return Val{types.Typ[types.Int], []*Term{n}}, true
+			return Val{types.Typ[types.Int], []*Term{bufLen(st, s)}}, true
 		}
 	case "(*bytes.Buffer).Bytes":
 		return func(e *Engine, st *State, fr *Frame, fn *ssa.Function, args []Val, in ssa.Instruction) (Val, bool) {
@@ -935,4 +962,119 @@ func binaryModels(name string) modelFn {
 		}
 	}
 	return nil
+}
+
+// bufLen: number of unread bytes of a buffer = bytes written - bytes read (ghost counters).
+func bufLen(st *State, s *Term) *Term {
+	wb := st.loadLeaf("tokpos|wb", []*Term{s}, Ref64)
+	rb := st.loadLeaf("tokpos|rb", []*Term{s}, Ref64)
+	if wb.Op == OSelect && wb.Args[0].Op == OVar {
+		st.assume(Ule(wb, BVConst(maxLen, 64)))
+		st.assume(Ule(rb, wb))
+	}
+	return Sub(wb, rb)
+}
+
+// ---------- byte-level streams (opt streams bytes): content bs|data[s, i], cursor bs|pos[s], length bs|end[s] ----------
+
+func (e *Engine) byteMode() bool {
+	return e.cur != nil && e.cur.c != nil && e.cur.c.Opts["streams"] == "bytes"
+}
+
+func (e *Engine) ioGlobalErr(st *State, name string) Val {
+	p := e.pkgs["io"]
+	if p == nil {
+		panic(unsupported("package io not loaded"))
+	}
+	g, ok := p.Members[name].(*ssa.Global)
+	if !ok {
+		panic(unsupported("io." + name + " not found"))
+	}
+	pi := &PtrInfo{Ref: globalRef(g), Root: rootName(errorType()), Elem: errorType()}
+	v := st.loadAt(pi, errorType())
+	st.assume(Not(Eq(v.iTag(), BVConst(0, 32))))
+	return v
+}
+
+func bsPos(st *State, s *Term) *Term {
+	p := st.loadLeaf("bs|pos", []*Term{s}, Ref64)
+	en := st.loadLeaf("bs|end", []*Term{s}, Ref64)
+	if p.Op == OSelect && p.Args[0].Op == OVar {
+		st.assume(Ule(p, en))
+		st.assume(Ule(en, BVConst(maxLen, 64)))
+	}
+	return p
+}
+func bsEnd(st *State, s *Term) *Term { return st.loadLeaf("bs|end", []*Term{s}, Ref64) }
+
+// byteReadFull models io.ReadFull on a byte-level stream.
+func (e *Engine) byteReadFull(st *State, fr *Frame, fn *ssa.Function, args []Val, in ssa.Instruction) (Val, bool) {
+	RT := fn.Signature.Results()
+	s := e.resolveAlias(st, streamRef(args[0]))
+	buf := args[1]
+	pos, end := bsPos(st, s), bsEnd(st, s)
+	avail := Sub(end, pos)
+	n := buf.sLen()
+	eof := e.ioGlobalErr(st, "EOF")
+	ueof := e.ioGlobalErr(st, "ErrUnexpectedEOF")
+	st.assume(Not(e.ifaceEq(st, eof, ueof)))
+	mkRes := func(cnt *Term, err Val) Val { return Val{RT, append([]*Term{cnt}, err.L...)} }
+	fork := func(cond *Term, tag string, f func(o *State) Val) {
+		if cond.IsFalse() || fr == nil || in == nil {
+			return
+		}
+		o := st.clone()
+		o.assume(cond)
+		o.trace = append(o.trace, tag)
+		if o.dead {
+			return
+		}
+		res := f(o)
+		if b := bindOf(in); b != nil {
+			res.T = b.Type()
+			o.top().regs[b] = res
+		}
+		e.work = append(e.work, o)
+	}
+	// other I/O failure: arbitrary error distinct from the EOF values, cursor unknown
+	if _, ok := st.ghost["$noioerr"]; !ok {
+		fork(True, "ioerr", func(o *State) Val {
+			err := freshError(o)
+			o.assume(Not(e.ifaceEq(o, err, eof)))
+			o.assume(Not(e.ifaceEq(o, err, ueof)))
+			np := FreshVar("bpos", Ref64)
+			o.assume(Ule(pos, np))
+			o.assume(Ule(np, end))
+			o.storeLeaf("bs|pos", []*Term{s}, np)
+			e.havocRegion(o, types.Typ[types.Uint8], buf.sRef(), buf.sOff(), buf.sLen())
+			return mkRes(FreshVar("nread", Ref64), err)
+		})
+	}
+	// empty buffer: (0, nil)
+	// nothing available: (0, EOF)
+	fork(And(Eq(avail, BVConst(0, 64)), Not(Eq(n, BVConst(0, 64)))), "eof", func(o *State) Val { return mkRes(BVConst(0, 64), eof) })
+	// short read: (avail, ErrUnexpectedEOF)
+	fork(And(Not(Eq(avail, BVConst(0, 64))), Ult(avail, n)), "short", func(o *State) Val {
+		e.byteCopy(o, s, pos, buf, avail)
+		o.storeLeaf("bs|pos", []*Term{s}, end)
+		return mkRes(avail, ueof)
+	})
+	st.assume(Ule(n, avail))
+	e.byteCopy(st, s, pos, buf, n)
+	st.storeLeaf("bs|pos", []*Term{s}, Add(pos, n))
+	return mkRes(n, nilError()), true
+}
+
+// byteCopy: buf[0..n) := bs|data[s, pos..pos+n)
+func (e *Engine) byteCopy(st *State, s, pos *Term, buf Val, n *Term) {
+	key := arrRoot(types.Typ[types.Uint8]) + "|[]"
+	src := st.cellArr("bs|data", 2, BV(8))
+	old := st.cellArr(key, 2, BV(8))
+	nw := FreshVar("Hb|"+key, old.S)
+	j := Bound("j", BV(128))
+	jr, ji := Extract(127, 64, j), Extract(63, 0, j)
+	in := And(Eq(jr, buf.sRef()), Ule(buf.sOff(), ji), Ult(Sub(ji, buf.sOff()), n))
+	st.assume(Forall([]*Term{j}, Eq(Select(nw, j), Ite(in, Select(src, Concat(s, Add(pos, Sub(ji, buf.sOff())))), Select(old, j)))))
+	st.mem[key] = nw
+	st.written[key] = true
 }
